@@ -107,3 +107,8 @@ export function TodoList(props: { heading: string }) {
 }
 
 export default TodoList;
+
+// dangling commas before a closer
+foo(alpha, beta, gamma,);
+const trailing = [one, two, three,];
+bar({ k: 1, l: 2, }, [p, q,],);
